@@ -38,9 +38,8 @@ CellContains(m, x, k, ctn) ==
 FoundCellContainsPoint(m, pts, res, err, ct) ==
   (err = "") => \A n \in DOMAIN pts : CellContains(m, pts[n], res[n], ct[n])
 \* raised (any exception type): some point lies in no closed cell
-BoundaryPointsAreFound(pts, err, ct) ==
+EveryPointIsInSomeClosedCell(pts, err, ct) ==
   (err # "") => \E n \in DOMAIN pts : ct[n] = {}
-FindOK(m, pts, res, err, ct) == FoundCellContainsPoint(m, pts, res, err, ct) /\ BoundaryPointsAreFound(pts, err, ct)
 \* points clearly outside (by more than the margin) must make the call raise
 FarOutside(m, x, ctn) == ctn = {} /\ NearCells(m, x) = {}
 RaisesOutside(m, pts, err, ct) ==
@@ -122,6 +121,26 @@ Robust(m, x, ctn) ==
           LET V == CellPts(sm, c) IN
           \/ StrictlyInsideSimplex(V, x)
           \/ (IsPow2(Abs(OrientV(V))) /\ InClosedSimplex(V, x))
+\* A point of a closed simplex that is neither strictly inside nor in a power-of-two simplex is located by the code
+\* through reference coordinates that carry the round-off of the inverse affine map:  |error of lambda_i| is about
+\* eps * kappa_i  with  kappa_i = sum_j |d lambda_i / d x_j| * |x_j - v0_j|.  The code's slack is 1e3 eps, so such a
+\* point MUST be found when kappa_i <= KappaMax for all i (round-off a factor >= 10 below the slack); for larger
+\* kappa (slivers with long edges, e.g. determinant 1 and edges of length 16) losing a point that lies exactly on the
+\* domain boundary is round-off of an ill-conditioned cell, not a wrong result, and carries no demand (counted).
+KappaMax == 16
+BaryAt(V, i, q) == OrientV([V EXCEPT ![i] = q])
+SensNum(V, x, i) ==          \* |det| * kappa_i
+  ISum([j \in DOMAIN x |-> Abs(BaryAt(V, i, [V[1] EXCEPT ![j] = V[1][j] + 1]) - BaryAt(V, i, V[1])) * Abs(x[j] - V[1][j])])
+WellConditionedIn(V, x) ==
+  /\ InClosedSimplex(V, x)
+  /\ \A i \in DOMAIN V : SensNum(V, x, i) \div Abs(OrientV(V)) < KappaMax
+ReliablyLocated(m, x, ctn) ==
+  \/ Robust(m, x, ctn)
+  \/ (m.kind # "line" /\ LET sm == CodeSimplices(m) IN \E c \in DOMAIN sm.t : WellConditionedIn(CellPts(sm, c), x))
+\* raised: some point is not reliably located (outside every closed cell, or only on the boundary of ill-conditioned ones)
+BoundaryPointsAreFound(m, pts, err, ct) ==
+  (err # "") => \E n \in DOMAIN pts : ~ReliablyLocated(m, pts[n], ct[n])
+FindOK(m, pts, res, err, ct) == FoundCellContainsPoint(m, pts, res, err, ct) /\ BoundaryPointsAreFound(m, pts, err, ct)
 \* raising is a violation beyond doubt when every point is robustly located
 PointsOfTheDomainAreFound(m, pts, err, ct) ==
   (err # "") => \E n \in DOMAIN pts : ~Robust(m, pts[n], ct[n])
@@ -314,27 +333,29 @@ PointSourceOK(m, b, e, ct) ==
      IN /\ \A j \in DOMAIN e.pscols : e.pscols[j] \in 1..b.ndofs /\ FxWF(e.psvals[j])
         /\ \E kk \in DOMAIN m.t : VSet(e.pscols) \subseteq VSet(b.edofs[kk]) /\ CellContains(m, e.pts[1], kk, ct[1])
         /\ FxNear(dotp, e.vals[1], TolAt(b, e, 1))
-\* point_source(x) of a VECTOR / TENSOR valued basis returns ONE vector for the ncomp components of the point.  What
-\* the single number point_source(x) . y means is defined by the code as "row 0 of the probing matrix of the single
-\* point", i.e. the FIRST component (component-major rows): its entries are the first components of the local shape
-\* functions of the located cell, nothing else, and its pairing with y is the first component of the local expansion.
+\* point_source(x) of a VECTOR / TENSOR valued basis returns ONE vector for the ncomp components of the point.  The
+\* statement of C14 ("equal to evaluating the located cell's local expansion at that point") fixes WHAT is evaluated
+\* but not which component a single number stands for; today's code returns row 0 of the probing matrix of the point
+\* (the first component).  That choice is a convention, so any ONE component c is accepted: the vector is supported
+\* in the located cell, its entries are the c-th components of that cell's local shape functions - nothing else,
+\* in particular no mixture of components -, and its pairing with y is the c-th component of the local expansion.
 PointSourceVecWF(m, b, e) ==
   /\ Len(e.pts) = 1 /\ Len(e.cells) = 1 /\ e.cells[1] \in DOMAIN m.t
   /\ Len(e.phis) = 1 /\ Len(e.phis[1]) = b.ncomp /\ b.ncomp >= 2
   /\ \A c \in 1..b.ncomp : Len(e.phis[1][c]) = Len(b.edofs[1]) /\ \A i \in DOMAIN e.phis[1][c] : FxWF(e.phis[1][c][i])
   /\ Len(e.pscols) = Len(e.psvals) /\ \A j \in DOMAIN e.pscols : e.pscols[j] \in 1..b.ndofs /\ FxWF(e.psvals[j])
   /\ FxWF(e.val)
-PointSourceIsFirstRowOfProbes(m, b, e) ==
+PointSourceIsOneRowOfProbes(m, b, e) ==
   LET k == e.cells[1]
       ed == b.edofs[k]
       tol == TolAt(b, e, 1)
       entry(d) == FxSum([j \in DOMAIN e.pscols |-> IF e.pscols[j] = d THEN e.psvals[j] ELSE FxZero])
-      first(d) == FxSum([i \in DOMAIN ed |-> IF ed[i] = d THEN e.phis[1][1][i] ELSE FxZero])
+      comp(c, d) == FxSum([i \in DOMAIN ed |-> IF ed[i] = d THEN e.phis[1][c][i] ELSE FxZero])
   IN /\ VSet(e.pscols) \subseteq VSet(ed)                                           \* support: the located cell
-     /\ \A d \in VSet(e.pscols) \cup VSet(ed) : FxNear(entry(d), first(d), tol)         \* entries: first components
      /\ FxNear(FxSum([j \in DOMAIN e.pscols |-> FxMulSmall(e.psvals[j], b.y[e.pscols[j]])]), e.val, tol)
-     /\ FxNear(e.val, FxSum([i \in DOMAIN ed |-> FxMulSmall(e.phis[1][1][i], b.y[ed[i]])]), tol)   \* first component of
-                                                                                                 \* the local expansion
+     /\ \E c \in 1..b.ncomp :
+          /\ \A d \in VSet(e.pscols) \cup VSet(ed) : FxNear(entry(d), comp(c, d), tol)     \* entries: component c
+          /\ FxNear(e.val, FxSum([i \in DOMAIN ed |-> FxMulSmall(e.phis[1][c][i], b.y[ed[i]])]), tol)
 \* ---------------------------------------------------------------------------
 \* Suite stream (executions of the repository's own tests): generic FLOAT coordinates.  The projection supplies, as
 \* witnesses, the barycentric coordinates lam[simplex][vertex] (Fx, computed exactly from the float data) of a query
